@@ -202,7 +202,7 @@ func verifC09Rank(rx, ry, rz int) {}
 // Measurement masks and matches (C06)
 
 // bit(m, i): bit i of the mask (measurement i matched).
-//@ pure func bit(m mask, i int) bool = (m[i/32] & (bv32(1) << bv32(i%32))) != bv32(0)
+//@ rec func bit(m mask, i int) bool = (m[i/32] & (bv32(1) << bv32(i%32))) != bv32(0)
 
 //@ func newMask(n int) (m mask)
 //@   props C06
